@@ -104,6 +104,10 @@ func verifC06Upstream(lo, hi, nstale int) {
 	mWarm, eWarm := u.readMsg(network, &verifConn{data: data, split: split}, warm)
 	mFresh, eFresh := u.readMsg(network, &verifConn{data: data, split: split}, fresh)
 	verifSameMsg("upstream", mWarm, eWarm, mFresh, eFresh)
+	// and both decode the reply's own bytes
+	ref := &dns.Msg{}
+	refErr := ref.Unpack(msg)
+	verifSameMsg("upstream-own-bytes", mFresh, eFresh, ref, refErr)
 	if eFresh == nil {
 		verifReach("decoded")
 	} else {
